@@ -11,7 +11,9 @@
 //!   op 4 a `const` ITEM initialised with const_default() (fixed set of (T, N));
 //!        the item is additionally compared element-wise at COMPILE time (const bool)
 //!   ty   0 u8, 1 u64, 2 [u8; 3], 3 GenericArray<u8, U3>, 4 Fd, 5 Keep, 6 W, 7 GenericArray<W, U3>,
-//!        8 KeepBig (Keep plus 20 bytes of key material: wider than a machine word, no drop glue)
+//!        8 KeepBig (Keep plus 20 bytes of key material: wider than a machine word, no drop glue),
+//!        9 Inv (one byte whose zeroized value is 0xFF, not the all-zero byte pattern),
+//!        10 Page (a 5000-byte element: larger than a memory page)
 //! Observables: [N, element codes...] (N = Unsigned::USIZE of the type).
 //! Direct oracles: every element after zeroize() equals the zeroized clone of the
 //! element before; const default == T::DEFAULT == Default::default() element-wise.
@@ -145,6 +147,45 @@ impl Default for KeepBig {
     }
 }
 
+/// one byte whose ZEROIZED value is 0xFF: an element that happens to be all-zero bytes beforehand is not
+/// yet zeroized
+#[derive(Clone, PartialEq, Debug)]
+struct Inv(u8);
+impl Zeroize for Inv {
+    fn zeroize(&mut self) {
+        self.0 = 0xFF;
+    }
+}
+impl ConstDefault for Inv {
+    const DEFAULT: Self = Inv(0);
+}
+impl Default for Inv {
+    fn default() -> Self {
+        Inv(0)
+    }
+}
+
+/// an element larger than a memory page (5000 bytes): zeroize wipes all of it
+#[derive(Clone, PartialEq, Debug)]
+struct Page {
+    tag: u8,
+    fill: [u8; 4999],
+}
+impl Zeroize for Page {
+    fn zeroize(&mut self) {
+        self.tag.zeroize();
+        self.fill.zeroize();
+    }
+}
+impl ConstDefault for Page {
+    const DEFAULT: Self = Page { tag: 0, fill: [0; 4999] };
+}
+impl Default for Page {
+    fn default() -> Self {
+        Page { tag: 0, fill: [0; 4999] }
+    }
+}
+
 /// one byte with a non-zero constant default
 #[derive(Clone, Copy, PartialEq, Debug)]
 struct W(u8);
@@ -243,6 +284,27 @@ impl Elem for KeepBig {
         self.id as i128 + 65536 * self.secret as i128
     }
 }
+impl Elem for Inv {
+    const BITS: u32 = 8;
+    fn dec(c: i128) -> Self {
+        Inv(c as u8)
+    }
+    fn enc(&self) -> i128 {
+        self.0 as i128
+    }
+}
+impl Elem for Page {
+    const BITS: u32 = 8;
+    fn dec(c: i128) -> Self {
+        Page { tag: c as u8, fill: [(c as u8) | 1; 4999] }
+    }
+    fn enc(&self) -> i128 {
+        if self.fill.iter().any(|k| *k != 0) {
+            return (1i128 << 40) + self.tag as i128;
+        }
+        self.tag as i128
+    }
+}
 impl Elem for W {
     const BITS: u32 = 8;
     fn dec(c: i128) -> Self {
@@ -263,7 +325,7 @@ impl Elem for GenericArray<W, U3> {
     }
 }
 
-const NTY: i128 = 9;
+const NTY: i128 = 11;
 fn bits_of(ty: i128) -> u32 {
     match ty {
         0 => <u8 as Elem>::BITS,
@@ -274,7 +336,9 @@ fn bits_of(ty: i128) -> u32 {
         5 => <Keep as Elem>::BITS,
         6 => <W as Elem>::BITS,
         7 => <GenericArray<W, U3> as Elem>::BITS,
-        _ => <KeepBig as Elem>::BITS,
+        8 => <KeepBig as Elem>::BITS,
+        9 => <Inv as Elem>::BITS,
+        _ => <Page as Elem>::BITS,
     }
 }
 
@@ -477,6 +541,8 @@ fn run_case(case: &[i128]) -> Vec<i128> {
         6 => run_ty::<W>(digits, op, prior),
         7 => run_ty::<GenericArray<W, U3>>(digits, op, prior),
         8 => run_ty::<KeepBig>(digits, op, prior),
+        9 => run_ty::<Inv>(digits, op, prior),
+        10 => run_ty::<Page>(digits, op, prior),
         _ => panic!("bad element type {}", ty),
     };
     r.expect("length type not monomorphised")
@@ -521,6 +587,9 @@ fn main() {
         let n = value(ds);
         let shape = if ds.last() == Some(&0) { "nonnormalised" } else { "normalised" };
         for ty in 0..NTY {
+            if ty == 10 && n > 4 {
+                continue; // 5000-byte elements: small arrays only (they live on the stack)
+            }
             for op in 1..=3 {
                 dist(&format!("op{}", op));
                 do_case(head(op, ty, ds));
@@ -532,6 +601,9 @@ fn main() {
             let mut contents: Vec<Vec<i128>> = vec![vec![max; n]];
             for _ in 0..nrand {
                 contents.push((0..n).map(|_| (rng.next() as i128) & max).collect());
+            }
+            if ty == 9 && !thorough {
+                contents.push(vec![0; n]); // slots that are all-zero bytes beforehand
             }
             if thorough {
                 contents.push((0..n).map(|i| ((i as i128 + 1) * 0x0101_0101_0101_0101) & max).collect());
